@@ -857,3 +857,49 @@ def r3j(ctx: Ctx) -> list[Ob]:
             else:
                 out.append(ok("R3j", c.qualname, f"hashable:config[{k}]", "hashable", site, nontrivial=False))
     return out
+
+
+# ------------------------------------------------------------------------------------------ R3k
+SYM_LAYER = "cirkit.symbolic.layers.Layer"
+
+
+def r3k(ctx: Ctx) -> list[Ob]:
+    """R3k -- a symbolic layer survives ``copyref()``.
+
+    Every operator copies the layers it does not transform with ``Layer.copyref()``, which rebuilds
+    ``type(self)(**{param: ref}, **self.config)``.  Each constructor parameter of a concrete symbolic
+    layer that is neither one of its ``params`` nor a ``*_factory`` (an alternative way of giving a
+    parameter) must therefore be a key of ``config`` and round-trip through it; a hyper-parameter with
+    a default that is missing from ``config`` (``log_space`` of a constant layer) is silently reset in
+    every derived circuit -- the second operator applied to a circuit then reads log-space constants
+    as linear values."""
+    out: list[Ob] = []
+    base = ctx.repo.cls(SYM_LAYER)
+    for c in ctx.repo.subclasses(base):
+        if not ctx.repo.is_concrete(c):
+            continue
+        names, vararg, kwarg = _init_names(ctx, c)
+        if vararg:
+            out.append(unres("R3k", c.qualname, "config==init", "__init__ takes *args", c.loc))
+            continue
+        dv = ctx.cf.dict_property(c, "config")
+        if dv.opaque:
+            out.append(unres("R3k", c.qualname, "config==init", f"config not interpretable: {dv.opaque}", c.loc))
+            continue
+        try:
+            pk = set(ctx.cf.dict_property(c, "params").items)
+        except Exception:
+            pk = set()
+        keys = set(dv.items)
+        hyper = [n for n in names if n not in pk and not n.endswith("_factory") and n not in ("scope",) or n == "scope"]
+        hyper = [n for n in hyper if n not in pk and not n.endswith("_factory")]
+        missing = [n for n in hyper if n not in keys]
+        extra = [k for k in keys if k not in names] if not kwarg else []
+        if missing:
+            out.append(viol("R3k", c.qualname, "config==init", f"__init__ parameter(s) {missing} of the symbolic layer are missing from config: Layer.copyref() = type(self)(**refs, **config) -- the copy every operator makes of an untouched layer -- resets them to their defaults (or raises, for a parameter without default)", c.loc))
+        if extra:
+            out.append(viol("R3k", c.qualname, "config==init", f"config key(s) {extra} are not __init__ parameters: copyref() raises TypeError", c.loc))
+        if not missing and not extra:
+            out.append(ok("R3k", c.qualname, "config==init", f"config keys {sorted(keys)} cover the hyper-parameters of __init__", c.loc))
+        _roundtrip(ctx, c, "config", "R3k", out)
+    return out
